@@ -10,12 +10,15 @@ DRIVER = "shootmodel_cli"
 
 MANIFEST = dict(
     text="Lean 4 theorems over main() as a phase machine flags -> load -> generate-all -> write* -> clean with arbitrary per-phase results: "
-         "a non-zero exit leaves no file-system effect unless an I/O error or a Clean error occurs (those two are the only exits after the "
-         "first write), exit code in {0,1,2}, every damage class shoot diagnoses is handled cleanly for every sub-command. Tied to the source "
-         "by theorems over tables regenerated from /repo on every run (every logx.Fatal*/os.Exit site reachable after the first notedownSrc "
-         "is one of the four modelled ones; the only explicit panic( is the recorded finding) and by running the rebuilt binary on ~100 "
-         "structured damaged inputs with predicted exit code and directory effect plus an enumerated stream of unpredicted damage "
-         "(token deletion, ill-typed fields, malformed directives/tags, unsupported signatures) where only the property is evaluated. "
+         "a non-zero exit leaves no file-system effect unless an I/O error or a Clean error occurs; with I/O errors the effect is a prefix of "
+         "the outputs (each complete) followed by a prefix of the removals, single-output runs stay all-or-nothing; exit code in {0,1,2}; every "
+         "damage class shoot diagnoses is handled cleanly for every sub-command. Tied to the source by theorems over tables regenerated from "
+         "/repo on every run (every logx.Fatal*/os.Exit site reachable after the first notedownSrc is one of the four modelled ones; the source "
+         "has no explicit panic() and by running the rebuilt binary on ~190 structured damaged inputs with predicted exit code and directory "
+         "effect (flag errors and near-valid flag VALUES, missing files/dirs/packages/types, wrong kinds, bad REST result lists, duplicate "
+         "aliases, reserved-method misuse, format failures) plus seeded random ones and an enumerated stream of unpredicted damage (token "
+         "deletion, ill-typed fields, malformed directives/tags, unsupported signatures, odd free-text flag values) where only the property "
+         "is evaluated. The six runtime panics and the Clean defect this check found were repaired in /repo; no finding region is left. "
          "PARTIAL by nature: absence of Go runtime panics is sampled, not proved.",
     note="Lean kernel + standard axioms; facts extractor (go/ast, name-based call graph) and black-box runs of the rebuilt binary are trusted; "
          "runtime-panic freedom rests on the damaged-input correspondence only.",
